@@ -44,6 +44,8 @@ ShapeViol(s) ==
                            \cup UNION {NumViol(s.c[i]) : i \in 1..Len(s.c)}
     [] s.t = "FXRates" -> (IF s.nccy = s.nq + 1 THEN {} ELSE {"currency-count"})
                           \cup (IF \A i \in 1..Len(s.ccylens) : s.ccylens[i] = 3 THEN {} ELSE {"currency-code"})
+                          \* one settlement date (or none) for the whole market, as the constructor demands
+                          \cup (IF "settles" \in DOMAIN s /\ \E i, j \in 1..Len(s.settles) : s.settles[i] # s.settles[j] THEN {"settlement-dates"} ELSE {})
                           \cup UNION {NumViol(s.quotes[i]) : i \in 1..Len(s.quotes)}
     \* (a curve's node count is not constrained by its constructors, so it is not demanded here)
     [] s.t = "Curve" -> UNION {NumViol(s.nodes[i]) : i \in 1..Len(s.nodes)}
